@@ -217,6 +217,7 @@ func runC18(c *Ctx) {
 	}
 	c.ruleAlias = nil
 	c.c18RunsDoNotOverlap()
+	c.c18MonitoringOverBeforeTheNextRun()
 	c.c18StopRecheck()
 }
 
@@ -689,4 +690,125 @@ func (c *Ctx) c18RunsDoNotOverlap() {
 		})
 	}
 	c.check(boundCtx, "M9", fname(start)+"/waits-on-the-context-of-its-run", c.ipos(goi), "the goroutine waits on a context bound when it is started", why)
+}
+
+// c18MonitoringOverBeforeTheNextRun (M12): Execute holds the lock of the subprocess for the whole run, and the goroutine
+// which monitors the run calls Stop(), which takes that lock: cancelled in the middle of a run, the goroutine waits for
+// Execute. If the next run takes the lock before the goroutine does, RunMonitoring waits for the goroutine in vain (it
+// holds the lock the goroutine needs), gives up after a second and the command is run with the context of the previous
+// run — cancelled. Execute therefore waits for the monitoring to be over *after* it released the lock: a deferred call,
+// registered before the deferred Unlock, to a function which loops until the monitoring is off and takes no lock.
+func (c *Ctx) c18MonitoringOverBeforeTheNextRun() {
+	c.rule("M12", "Execute, which holds the lock during the run, waits after releasing it for what is left of the run's monitoring (which needs that lock) to be over: the next run cannot overtake it and inherit a cancelled context", 1)
+	ex := c.fn(spPkg, "(*Subprocess).Execute")
+	if ex == nil {
+		return
+	}
+	c.FuncsSeen[fname(ex)] = true
+	// functions that loop until the monitoring is off
+	waits := func(w *ssa.Function) bool {
+		found := false
+		seen := map[*ssa.Function]bool{}
+		var visit func(g *ssa.Function, depth int)
+		visit = func(g *ssa.Function, depth int) {
+			if g == nil || seen[g] || g.Blocks == nil || depth > 2 {
+				return
+			}
+			seen[g] = true
+			allInstrs(g, func(in ssa.Instruction) {
+				if cc := callCommon(in); cc != nil {
+					if _, op, ok := mutexOp(cc); ok && (op == "Lock" || op == "RLock") {
+						found = false
+						seen = nil
+						return
+					}
+				}
+			})
+			if seen == nil {
+				return
+			}
+			for _, b := range g.Blocks {
+				ifi, ok := b.Instrs[len(b.Instrs)-1].(*ssa.If)
+				if !ok || !inLoop(ifi) {
+					continue
+				}
+				v, _ := boolTest(ifi)
+				for _, l := range sources(v, deriveOpts{}) {
+					cl, ok := l.(*ssa.Call)
+					if !ok {
+						continue
+					}
+					if h := staticCallee(&cl.Call); h != nil && h.Name() == "IsOn" && strings.Contains(fname(h), "subprocessMonitoring") {
+						found = true
+					}
+					if calleeFull(&cl.Call) == "(*go.uber.org/atomic.Bool).Load" && len(cl.Call.Args) > 0 {
+						if fa, ok := cl.Call.Args[0].(*ssa.FieldAddr); ok {
+							if so := structOf(fa.X.Type()); so != nil && so.Field(fa.Field).Name() == "monitoringOn" {
+								found = true
+							}
+						}
+					}
+				}
+			}
+			if found {
+				return
+			}
+			allInstrs(g, func(in ssa.Instruction) {
+				if seen == nil {
+					return
+				}
+				if cc := callCommon(in); cc != nil {
+					if h := staticCallee(cc); h != nil && inPkg(spPkg)(h) {
+						visit(h, depth+1)
+					}
+				}
+			})
+		}
+		visit(w, 0)
+		return found && seen != nil
+	}
+	var unlockDefer, lockCall ssa.Instruction
+	var waitDefer ssa.Instruction
+	var explicitUnlock, explicitWait ssa.Instruction
+	allInstrs(ex, func(in ssa.Instruction) {
+		cc := callCommon(in)
+		if cc == nil {
+			return
+		}
+		_, isDefer := in.(*ssa.Defer)
+		if _, op, ok := mutexOp(cc); ok {
+			switch {
+			case op == "Lock" && !isDefer:
+				lockCall = in
+			case op == "Unlock" && isDefer:
+				unlockDefer = in
+			case op == "Unlock":
+				explicitUnlock = in
+			}
+			return
+		}
+		if h := staticCallee(cc); h != nil && waits(h) {
+			if isDefer {
+				waitDefer = in
+			} else {
+				explicitWait = in
+			}
+		}
+	})
+	key := fname(ex) + "/monitoring-over-once-the-lock-is-released"
+	if lockCall == nil {
+		c.ok("M12", key, c.pos(ex.Pos()), "Execute does not hold the lock of the subprocess during the run: the monitoring goroutine is never kept waiting")
+		return
+	}
+	good := false
+	switch {
+	case waitDefer != nil && unlockDefer != nil && dominates(waitDefer, unlockDefer):
+		good = true // deferred calls run in reverse order: the wait runs after the release
+	case waitDefer != nil && unlockDefer == nil && explicitUnlock != nil:
+		good = true // the release is explicit, the deferred wait runs at the very end
+	case explicitWait != nil && explicitUnlock != nil && dominates(explicitUnlock, explicitWait):
+		good = true
+	}
+	c.check(good, "M12", key, c.ipos(lockCall), "after the lock is released Execute waits for the monitoring of the run to be over",
+		"Execute returns while the goroutine monitoring its run may still be waiting for the lock (a Cancel() in the middle of the run sends it into Stop()): the next Execute()/Start() takes the lock first, waits one second in vain for that goroutine, and runs its command under the cancelled context of the previous run — it reports 'cancelled' although nobody interrupted it")
 }
